@@ -210,19 +210,31 @@ func ReceiveSession(ctx context.Context, rw io.ReadWriter, state SessionState, n
 	return negotiateSession(ctx, jid.JID{}, jid.JID{}, rw, Received|state, negotiate)
 }
 
+// setDeadline makes reads and writes on conn fail once ctx is canceled.
+// The deadline stays in the past until the returned function is called, so
+// that an operation started after the cancellation fails as well (and not only
+// one that was blocked when it arrived); the returned function waits for that
+// and clears the deadline again.
 func setDeadline(ctx context.Context, conn net.Conn) context.CancelFunc {
 	cancelCtx, cancel := context.WithCancel(context.Background())
+	done := make(chan bool)
 	go func() {
 		select {
 		case <-ctx.Done():
 			/* #nosec */
 			conn.SetDeadline(aLongTimeAgo)
-			/* #nosec */
-			conn.SetDeadline(time.Time{})
+			done <- true
 		case <-cancelCtx.Done():
+			done <- false
 		}
 	}()
-	return cancel
+	return func() {
+		cancel()
+		if expired := <-done; expired {
+			/* #nosec */
+			conn.SetDeadline(time.Time{})
+		}
+	}
 }
 
 func setWriteDeadline(ctx context.Context, conn net.Conn) context.CancelFunc {
